@@ -266,7 +266,91 @@ def same_local_name_cases():
            '<f:root %s><a:tag>x</a:tag><a:tag>y</a:tag><b:tag>z</b:tag></f:root>' % ns, None, None)
 
 
+INLINE_XSD = ('<xs:schema xmlns:xs="http://www.w3.org/2001/XMLSchema" xmlns:t="urn:fam" targetNamespace="urn:fam" elementFormDefault="qualified">'
+              '<xs:complexType name="A"><xs:sequence><xs:element name="code"><xs:simpleType><xs:restriction base="xs:string"><xs:maxLength value="8"/></xs:restriction></xs:simpleType></xs:element>'
+              '<xs:element name="when"><xs:simpleType><xs:restriction base="xs:dateTime"/></xs:simpleType></xs:element></xs:sequence>'
+              '<xs:attribute name="flag"><xs:simpleType><xs:restriction base="xs:string"/></xs:simpleType></xs:attribute></xs:complexType>'
+              '<xs:complexType name="B"><xs:sequence><xs:element name="code"><xs:simpleType><xs:restriction base="xs:int"><xs:maxInclusive value="999"/></xs:restriction></xs:simpleType></xs:element>'
+              '<xs:element name="when"><xs:simpleType><xs:restriction base="xs:time"/></xs:simpleType></xs:element></xs:sequence>'
+              '<xs:attribute name="flag"><xs:simpleType><xs:restriction base="xs:boolean"/></xs:simpleType></xs:attribute></xs:complexType>'
+              '<xs:complexType name="C"><xs:sequence><xs:element name="code"><xs:simpleType><xs:restriction base="xs:decimal"/></xs:simpleType></xs:element></xs:sequence></xs:complexType>'
+              '<xs:element name="root"><xs:complexType><xs:sequence>%s</xs:sequence></xs:complexType></xs:element></xs:schema>')
+
+
+def inline_type_cases():
+    """local declarations that share a NAME (an anonymous simple type is named after its element / attribute) but restrict
+    different builtins: each keeps its own lexical rules, in every declaration order"""
+    import datetime
+    import decimal
+    members = {"a": '<xs:element name="a" type="t:A"/>', "b": '<xs:element name="b" type="t:B"/>', "c": '<xs:element name="c" type="t:C"/>'}
+    docs = {"a": '<f:a flag="0"><f:code>007</f:code><f:when>2001-02-03T04:05:06</f:when></f:a>',
+            "b": '<f:b flag="false"><f:code>7</f:code><f:when>08:30:00</f:when></f:b>',
+            "c": '<f:c><f:code>100.50</f:code></f:c>'}
+    vals = {"a": dict(code="007", when=datetime.datetime(2001, 2, 3, 4, 5, 6), flag="0"),
+            "b": dict(code=7, when=datetime.time(8, 30), flag=False), "c": dict(code=decimal.Decimal("100.50"))}
+    for order in ("abc", "bac", "cba", "bca"):
+        yield ("same-name-inline-types:" + order, {"main.xsd": INLINE_XSD % "".join(members[k] for k in order)},
+               '<f:root xmlns:f="urn:fam">%s</f:root>' % "".join(docs[k] for k in order), {k: vals[k] for k in order}, None)
+
+
+def all_same_local_name_cases():
+    """an xsd:all whose members share a local name in two namespaces, the document in both orders"""
+    def sub(ns):
+        return ('<xs:schema xmlns:xs="http://www.w3.org/2001/XMLSchema" targetNamespace="%s" elementFormDefault="qualified">'
+                '<xs:element name="item" type="xs:string"/></xs:schema>' % ns)
+    main = ('<xs:schema xmlns:xs="http://www.w3.org/2001/XMLSchema" xmlns:a="urn:a" xmlns:b="urn:b" targetNamespace="urn:fam" elementFormDefault="qualified">'
+            '<xs:import namespace="urn:a" schemaLocation="a.xsd"/><xs:import namespace="urn:b" schemaLocation="b.xsd"/>'
+            '<xs:element name="root"><xs:complexType><xs:all><xs:element ref="a:item"/><xs:element ref="b:item"/><xs:element name="local" type="xs:string" minOccurs="0"/></xs:all></xs:complexType></xs:element></xs:schema>')
+    docs = {"main.xsd": main, "a.xsd": sub("urn:a"), "b.xsd": sub("urn:b")}
+    ns = 'xmlns:f="urn:fam" xmlns:a="urn:a" xmlns:b="urn:b"'
+    for label, body in (("ab", "<a:item>A</a:item><b:item>B</b:item>"), ("ba", "<b:item>B</b:item><a:item>A</a:item>"),
+                        ("bla", "<b:item>B</b:item><f:local>l</f:local><a:item>A</a:item>"), ("lab", "<f:local>l</f:local><a:item>A</a:item><b:item>B</b:item>")):
+        # the document in its own order is valid; zeep re-renders xsd:all members in declaration order, so only acceptance
+        # and the decoded values are judged here (C03 acceptance), not the re-serialisation
+        yield ("all-same-local-name:" + label, docs, '<f:root %s>%s</f:root>' % (ns, body), None, None)
+
+
+ANY_XSD = ('<xs:schema xmlns:xs="http://www.w3.org/2001/XMLSchema" xmlns:t="urn:fam" targetNamespace="urn:fam" elementFormDefault="qualified">'
+           '<xs:element name="note"><xs:complexType><xs:sequence><xs:element name="text" type="xs:string" minOccurs="0"/><xs:element name="level" type="xs:int" minOccurs="0"/></xs:sequence>'
+           '<xs:attribute name="lang" type="xs:string"/></xs:complexType></xs:element>'
+           '<xs:element name="ping"><xs:complexType/></xs:element>'
+           '<xs:element name="root"><xs:complexType><xs:sequence><xs:element name="id" type="xs:int"/><xs:element name="tail" type="xs:string"/><xs:any %s/></xs:sequence></xs:complexType></xs:element></xs:schema>')
+
+
+def any_marker_cases():
+    """wildcard content that is a declared element with nothing set (a marker): every item written is read back, in order.
+    (An element of an EMPTY complex type in the slot is finding K8: `ComplexType.parse_xmlelement` returns None for it.)"""
+    shapes = [("bare", "<f:note/>", lambda zs: zs.get_element("{urn:fam}note")()),
+              ("attr", '<f:note lang="en"/>', lambda zs: zs.get_element("{urn:fam}note")(lang="en")),
+              ("full", "<f:note><f:text>x</f:text><f:level>2</f:level></f:note>", lambda zs: zs.get_element("{urn:fam}note")(text="x", level=2)),
+              ("ping", "<f:ping/>", lambda zs: zs.get_element("{urn:fam}ping")())]
+    names = {"bare": "note", "attr": "note", "full": "note", "ping": "ping"}
+
+    def mk(kinds, many, tail):
+        def build(zs):
+            z = _zeep()
+            items = [z.xsd.AnyObject(zs.get_element("{urn:fam}" + names[k]), dict((n, f) for n, _x, f in shapes)[k](zs)) for k in kinds]
+            d = {"id": 1, "_value_1": items if many else items[0]}
+            d["tail"] = "t" if tail else "u"
+            return d
+        return build
+    for kinds, many in ((["bare"], False), (["full"], False), (["bare", "attr", "full"], True), (["full", "bare", "attr", "bare"], True), (["bare", "bare"], True)):
+        for tail in (False, True):
+            body = "".join(dict((n, x) for n, x, _f in shapes)[k] for k in kinds)
+            ref = '<f:root xmlns:f="urn:fam"><f:id>1</f:id>%s%s</f:root>' % ("<f:tail>%s</f:tail>" % ("t" if tail else "u"), body)
+            xsd = ANY_XSD % ('minOccurs="0" maxOccurs="unbounded"' if many else "")
+            yield ("any-marker-elements:%s%s" % ("+".join(kinds), ":tail" if tail else ""), {"main.xsd": xsd}, ref, None, mk(kinds, many, tail))
+
+
+ACCEPT_ONLY = ("all-same-local-name",)
+# (property, family) -> (finding id, the text that identifies it)
+KNOWN = {("C03", "any-marker-elements"): ("K17", "re-serialising the decoded value raises TypeError: Any element received object")}
+
+
 def all_cases():
+    yield from any_marker_cases()
+    yield from inline_type_cases()
+    yield from all_same_local_name_cases()
     yield from name_clash_cases()
     yield from same_local_name_cases()
     yield from union_cases()
@@ -292,6 +376,8 @@ def make_transport(docs):
 
 def canon_value(v):
     """zeep value object / python value -> comparable plain structure (type name kept for complex values)"""
+    if type(v).__name__ == "AnyObject":
+        return canon_value(v.value)     # wildcard content reads back as the value of the declared element
     if hasattr(v, "__values__"):
         d = {k: canon_value(x) for k, x in v.__values__.items() if x is not None and x != []}
         tn = getattr(getattr(v, "_xsd_type", None), "name", None)
@@ -339,6 +425,8 @@ def check_case(label, docs, ref_text, value, build, prop):
         zs = z.xsd.Schema(etree.fromstring(docs["main.xsd"].encode()), transport=make_transport(docs), location="http://h.example/s/main.xsd")
         root = zs.get_element("{urn:fam}root")
         typed = build is not None
+        if value is None and build is not None:
+            value = canon_value(build(zs))     # the expectation is the value handed in, in comparable form
         if value is None:
             # document-driven case: strict acceptance and re-serialisation (C03); the decoded value renders to a valid document
             # that decodes to the same value again (C01, C02)
@@ -349,7 +437,11 @@ def check_case(label, docs, ref_text, value, build, prop):
                 out = parent[0]
             except Exception as e:  # noqa
                 return ["valid document refused in strict mode: %s: %s" % (type(e).__name__, e)] if prop == "C03" else []
-            if prop == "C03" and xmlcanon.node(out) != xmlcanon.node(ref):
+            if prop == "C03" and label.split(":")[0] in ACCEPT_ONLY:
+                texts = sorted(t for t in ref.itertext() if t.strip())
+                if sorted(t for t in out.itertext() if t.strip()) != texts:
+                    fails.append("the decoded value lost or changed content: %s" % etree.tostring(out).decode()[:300])
+            elif prop == "C03" and xmlcanon.node(out) != xmlcanon.node(ref):
                 fails.append("re-serialising the decoded value does not reproduce the document: %s" % etree.tostring(out).decode()[:300])
             if prop == "C02" and not validator.validate(out):
                 fails.append("emitted XML is rejected by libxml2: %s" % validator.error_log.last_error)
@@ -397,7 +489,11 @@ def check_case(label, docs, ref_text, value, build, prop):
                     fails.append("valid document decodes to %r, it denotes %r" % (back, exp))
                 else:
                     parent = etree.Element("p")
-                    root.render(parent, v)
+                    try:
+                        root.render(parent, v)
+                    except Exception as e:  # noqa
+                        fails.append("re-serialising the decoded value raises %s: %s" % (type(e).__name__, str(e)[:200]))
+                        return fails
                     if xmlcanon.node(parent[0]) != xmlcanon.node(ref):
                         fails.append("re-serialising the decoded value does not reproduce the document: %s" % etree.tostring(parent[0]).decode()[:300])
             except Exception as e:  # noqa
@@ -487,7 +583,12 @@ def run_family(res, prop):
         res.case(key=("multidoc", label, prop), nontrivial=True)
         res.count("family:" + label.split(":")[0])
         for f in check_case(label, docs, ref_text, value, build, prop):
-            res.failures.append(dict(what=f, case=dict(kind="multidoc", label=label, docs=docs, reference=ref_text)))
+            rec = dict(what=f, case=dict(kind="multidoc", label=label, docs=docs, reference=ref_text))
+            known = KNOWN.get((prop, label.split(":")[0]))
+            if known and known[1] in f:
+                rec["known"] = known[0]
+                res.known_hits[known[0]] = res.known_hits.get(known[0], 0) + 1
+            res.failures.append(rec)
 
 
 def replay(prop, case):
